@@ -89,7 +89,7 @@ func genReloadScenario(t *rapid.T) Scenario {
 		at := 0
 		for r := 0; r < nrel; r++ {
 			at += rapid.IntRange(0, max(span, 20)).Draw(t, "atMs")
-			gen.Reloads = append(gen.Reloads, ReloadSpec{AtMs: at, Variant: rapid.SampledFrom([]string{"valid", "valid", "valid", "invalid", "incompatible", "shifted", "moreoutputs", "maxfields", "inputs", "orchtype", "renamed"}).Draw(t, "variant")})
+			gen.Reloads = append(gen.Reloads, ReloadSpec{AtMs: at, Variant: rapid.SampledFrom([]string{"valid", "valid", "valid", "valid", "valid", "valid", "invalid", "incompatible", "shifted", "moreoutputs", "maxfields", "inputs", "orchtype", "renamed", "metrickey-overlap", "metrickey-duplicate", "metrickey-unknown"}).Draw(t, "variant")})
 		}
 		gen.StopAfter = rapid.SampledFrom([]int{0, 5, 30, 120}).Draw(t, "stopAfter")
 		sc.Gens = append(sc.Gens, gen)
@@ -173,6 +173,6 @@ func runReload(sc Scenario) (res vh.Result) {
 func TestE2EReload(t *testing.T) {
 	vh.Run(t, vh.Spec[Scenario]{
 		Name: "e2e-reload", Gen: genReloadScenario, Run: runReload, Quick: 10, Thorough: 250, Journal: true, ShrinkSeconds: 30,
-		Rule: "the real agent started through run.Reloader (TCP listener, ReloadableOrchestrator, pipelines, hybrid buffers, Forward clients; scaled defs) with 1-2 generations of 1-5 staggered client connections x 1-30 stamped records with pauses, faulty or healthy upstreams, and 1-3 reloads per generation at generated moments of the traffic (hook H4 = the SIGHUP handler's reload()) with a valid (extra transform + schema field), an invalid or an incompatible (other orchestration keys, schema fields moved by a new field in front, another schema/maxFields, a changed inputs section, another orchestration type, a renamed input field) new configuration file; oracle = C01's no-loss/no-alteration oracle over the whole scenario, every reload counted once under the right status, no effect of a rejected reload (no record carries the new transform's field, tags unchanged), the new configuration in effect for every connection opened after a successful reload returned, and every queue directory that holds chunk files right after a successful reload has a pipeline in the new pipeline set (its buffer gauges exist); non-trivial = at least one reload after a connection was opened",
+		Rule: "the real agent started through run.Reloader (TCP listener, ReloadableOrchestrator, pipelines, hybrid buffers, Forward clients; scaled defs) with 1-2 generations of 1-5 staggered client connections x 1-30 stamped records with pauses, faulty or healthy upstreams, and 1-3 reloads per generation at generated moments of the traffic (hook H4 = the SIGHUP handler's reload()) with a valid (extra transform + schema field), an invalid or an incompatible (other orchestration keys, schema fields moved by a new field in front, another schema/maxFields, a changed inputs section, another orchestration type, a renamed input field, metric keys that overlap the orchestration keys, repeat or name no field) new configuration file; oracle = C01's no-loss/no-alteration oracle over the whole scenario, every reload counted once under the right status, no effect of a rejected reload (no record carries the new transform's field, tags unchanged), the new configuration in effect for every connection opened after a successful reload returned, and every queue directory that holds chunk files right after a successful reload has a pipeline in the new pipeline set (its buffer gauges exist); non-trivial = at least one reload after a connection was opened",
 	})
 }
